@@ -1,6 +1,6 @@
 import FlytModel.Generated.IR
 import FlytModel.Expected.IR
-/-! The translation of `markUnprocessed` from the CURRENT source is, term for term, the IR the refinement theorems are about. -/
+/-! The translation of `markUnprocessed` from the CURRENT source is, term for term, the expected IR. -/
 namespace Flyt.Tie
 theorem markUnprocessed : Flyt.Generated.IR.markUnprocessed = Flyt.Expected.IR.markUnprocessed := rfl
 end Flyt.Tie
